@@ -223,3 +223,9 @@ Definition peers_case_ok (c : list (option (option N * option N)) * option (list
   | Err _, None => true
   | _, _ => false
   end.
+
+(* family same: ipnisync.Syncer.SameAddrs (the library's caller of MultiaddrsEqual):
+   (ids of the syncer's addresses, ids of the list asked about, answer) *)
+Definition same_case_ok (c : list N * list N * bool) : bool :=
+  let '(l1, l2, b) := c in
+  Bool.eqb (fst (fst (addrs_equal l1 l2))) b.
